@@ -39,11 +39,14 @@ def op_alphabet(keys, nmax):
         ops.append(['append', k])
         ops.append(['appendv', k, False])
         ops.append(['setnone', k])
+        ops.append(['add', k, {'value': 'BAD', 'index': 0}])
+        ops.append(['add', k, {'value': 'BAD'}])
     ops.append(['add', keys[0], {'index': 0, 'pos_key': keys[-1]}])
     ops.append(['add', keys[0], {'pos_key': 'zz'}])
     for i in range(nmax + 1):
         ops.append(['pop_at', i])
     ops.append(['sort'])
+    ops.append(['sortkr'])
     ops.append(['reverse'])
     ops.append(['extend', [keys[-1], keys[0]], 'dict', True])
     return ops
@@ -52,8 +55,14 @@ def op_alphabet(keys, nmax):
 def new_obj(cls, initial):
     from hszinc.sortabledict import SortableDict
     from hszinc.metadata import MetadataObject
-    c = {'sd': SortableDict, 'mo': MetadataObject}[cls]
-    o = c()
+    if cls == 'mv':
+        # a map with a value validator, as Grid installs on its metadata: it refuses the value 'BAD'
+        def validate(v):
+            if v == 'BAD':
+                raise ValueError('value refused by the validator')
+        o = MetadataObject(validate_fn=validate)
+    else:
+        o = {'sd': SortableDict, 'mo': MetadataObject}[cls]()
     for i, k in enumerate(initial):
         o[k] = 'i%d' % i
     return o
@@ -74,6 +83,8 @@ def apply_model(lst, op, step):
         after, replace = kw.get('after', False), kw.get('replace', True)
         if 'value' in kw:
             val = kw['value']
+        if val == 'BAD':
+            return ('raises', 'ValueError')      # refused by the validator before anything else happens
         if index is not None and pos_key is not None:
             return ('raises', 'ValueError')
         if pos_key is not None and pos_key not in keys:
@@ -114,6 +125,9 @@ def apply_model(lst, op, step):
         return ('ok', lst.pop(op[1])[1])
     if kind == 'sort':
         lst.sort(key=lambda kv: kv[0])
+        return ('ok', None)
+    if kind == 'sortkr':        # sort(key=len, reverse=True): every key ties, a stable sort keeps the order
+        lst.sort(key=lambda kv: len(kv[0]), reverse=True)
         return ('ok', None)
     if kind == 'reverse':
         lst.reverse()
@@ -167,6 +181,8 @@ def apply_real(o, op, step):
             r = o.pop_at(op[1])
         elif kind == 'sort':
             r = o.sort()
+        elif kind == 'sortkr':
+            r = o.sort(key=len, reverse=True)
         elif kind == 'reverse':
             r = o.reverse()
         elif kind == 'append':
@@ -280,11 +296,11 @@ def plan(tier, seed, excl):
     q = tier == 'quick'
     t = []
     # exhaustive: (keys, depth) per tier
-    for cls in ('sd', 'mo'):
+    for cls in ('sd', 'mo', 'mv'):
         for ii in range(len(INITIALS)):
             t.append(('enum', {'cls': cls, 'init': ii, 'nkeys': 4, 'depth': 2, 'shard': 0, 'of': 1}))
-            for sh in range(2 if q else 6):
-                t.append(('enum', {'cls': cls, 'init': ii, 'nkeys': 3 if q else 4, 'depth': 3, 'shard': sh, 'of': 2 if q else 6}))
+            for sh in range(4 if q else 8):
+                t.append(('enum', {'cls': cls, 'init': ii, 'nkeys': 3 if q else 4, 'depth': 3, 'shard': sh, 'of': 4 if q else 8}))
     t += [('machine', {'shard': i, 'n': 300 if q else 6000}) for i in range(8)]
     return t
 
@@ -297,7 +313,9 @@ def run(part, args, env):
         keys = KEYS4[:args['nkeys']]
         if any(k not in keys for k in init):
             keys = KEYS4
-        alphabet = [op for op in op_alphabet(keys, len(keys)) if args['cls'] == 'mo' or op[0] not in ('append', 'appendv', 'extend')]
+        alphabet = [op for op in op_alphabet(keys, len(keys)) if args['cls'] != 'sd' or op[0] not in ('append', 'appendv', 'extend')]
+        if args['cls'] != 'mv':
+            alphabet = [op for op in alphabet if not (op[0] == 'add' and op[2].get('value') == 'BAD')]
         n = nt = 0
         depth = args['depth']
         for idx, first in enumerate(alphabet):
@@ -325,7 +343,7 @@ def run(part, args, env):
             depth, len(keys), len(alphabet), len(INITIALS))] = True
     else:
         from hypothesis import strategies as st
-        key = st.sampled_from(KEYS4 + ['e'])
+        key = st.sampled_from(KEYS4 + ['e', ''])      # '' is a legal (falsy) key of a SortableDict
         idx = st.integers(0, 6)
         addkw = st.one_of(
             st.fixed_dictionaries({'index': idx, 'after': st.booleans()}),
@@ -346,7 +364,7 @@ def run(part, args, env):
             st.tuples(key, st.sampled_from(['list', 'dict', 'sd'])).map(lambda t: ['extend', [t[0]], t[1], False]),
             key.map(lambda k: ['setdefault', k]), st.just(['clear']))
         hist = st.fixed_dictionaries({
-            'cls': st.just('mo'), 'initial': st.sampled_from(INITIALS), 'ops': st.lists(op, min_size=1, max_size=40)})
+            'cls': st.sampled_from(['mo', 'mv']), 'initial': st.sampled_from(INITIALS + [['', 'a'], ['b', '', 'c']]), 'ops': st.lists(op, min_size=1, max_size=40)})
 
         def body(case):
             r = check_history(case, excl)
